@@ -20,14 +20,14 @@ from . import common
 from .common import Labels, fs, exc_name
 
 CEXT = "plain"
-RULE = ("random PUBO/PUSO/PCBO/PCSO built from a dict, or term by term with a cancelled extra term and refresh() (refreshed state), 1..6 variables, 1..6 terms, degree <= 6 "
+RULE = ("random PUBO/PUSO/PCBO/PCSO built from a dict, or term by term with a cancelled extra term and refresh() (refreshed state), or the same without refresh() (stale mapping / variable count / degree: correspondence only, the oracle is for refreshed models), 1..6 variables, 1..6 terms, degree <= 6 "
         "(thorough: <= 9 variables, degree <= 8), raw keys in random label order, coefficients int / Fraction / "
         "dyadic float; targets to_qubo, to_quso, to_pubo(deg), to_puso(deg) with deg in {None,2,3,4} (+ malformed "
         "deg 0/1); lam None / constant (incl. 0 and too small) / callable from a fixed menu; pairs none / valid / "
         "partly unknown labels; each abstract case under three label realisations.  A case is non-trivial when "
         "the reduction performed at least one step; distinct = distinct case JSON")
 ASSUMPTIONS = [
-    "models are in the refreshed bookkeeping state (built from a dict of distinct non-zero terms, or refreshed after incremental edits), as in the property's quantifier",
+    "the oracle's models are in the refreshed bookkeeping state (built from a dict of distinct non-zero terms, or refreshed after incremental edits), as in the property's quantifier; stale states are covered by the correspondence only",
     "float coefficients are restricted to dyadic rationals so IEEE arithmetic is exact",
     "level (ii) uses the certificate hook in qubovert/_pubo.py (guard JTIOSUE_QUBOVERT_VERIF=1); when the hook is absent only level (i) is checked and the run says so in coverage.notes",
 ]
@@ -132,9 +132,17 @@ def gen_abstract(rng, big=False):
     num = rng.choice(["int", "frac", "float"]) if all(dyadic(x) for x in nums) else "frac"
     case = {"family": "reduce", "kind": kind, "nv": nv, "terms": terms, "target": target, "deg": deg,
             "lam": lam, "pairs": pairs, "num": num}
-    if rng.random() < 0.2:
+    r = rng.random()
+    if r < 0.2:
         # built term by term, with a term on otherwise unused labels added and cancelled again, then refresh()
         case["junk"] = [UNKNOWN - 1 - i for i in range(rng.randint(1, 3))]
+    elif r < 0.4:
+        # the same without refresh(): a stale bookkeeping state (mapping / num_binary_variables / degree still
+        # count the cancelled term, which mixes model labels with otherwise unused ones and may be the longest)
+        case["junk"] = ([UNKNOWN - 1 - i for i in range(rng.randint(1, 3))] +
+                        rng.sample(range(nv), rng.randint(0, min(nv, 5))))
+        rng.shuffle(case["junk"])
+        case["stale"] = True
     return case
 
 def realisations(rng, a):
@@ -156,7 +164,8 @@ def build(case):
         M[L.key(case["junk"])] -= 1
         for k, v in items[len(items) // 2:]:
             M[k] += v
-        M.refresh()
+        if not case.get("stale"):
+            M.refresh()
     else:
         M = getattr(qv, case["kind"])(d)
     return M, L
@@ -185,6 +194,10 @@ def hook_cert(Dm):
                     "lams_equal": all(l == lam for *_, l in t["steps"])})
     return out
 
+def finite_degree(d):
+    """the cached `degree` as a natural number (`-inf` of a model that never had a term: 0)"""
+    return int(d) if d == d and d not in (float("inf"), -float("inf")) else 0
+
 def run_impl(case):
     """returns dict(canon=..., M=, R=, L=, info for the Lean lines)"""
     M, L = build(case)
@@ -193,6 +206,7 @@ def run_impl(case):
     info["terms"] = [[L.ids(k), fs(v)] for k, v in M.items()]
     info["mapping"] = [[L.ident(lab), int(i)] for lab, i in M.mapping.items()]
     info["n"] = int(M.num_binary_variables)
+    info["cdeg"] = finite_degree(M.degree)
     try:
         R = getattr(M, "to_" + case["target"])(**call_kwargs(case, L, case["target"]))
     except Exception as e:
@@ -220,14 +234,13 @@ def run_impl(case):
 
 def model_line(case, info):
     return {"op": "reduce", "spin": case["kind"] in SPIN, "target": case["target"], "terms": info["terms"],
-            "mapping": info["mapping"], "n": info["n"], "deg": case["deg"], "lam": case["lam"],
+            "mapping": info["mapping"], "n": info["n"], "cdeg": info["cdeg"], "deg": case["deg"], "lam": case["lam"],
             "pairs": case["pairs"] or []}
 
 def replay_line(case, info):
     deg = 2 if case["target"] in ("qubo", "quso") else case["deg"]
     if deg is None:
-        d = info["bool_degree"]
-        deg = int(d) if d == d and d not in (float("inf"), -float("inf")) else 0
+        deg = finite_degree(info["bool_degree"])
     post = {"puso": "puso", "quso": "quso"}.get(case["target"], "")
     cert = [{k: v for k, v in t.items() if k != "lams_equal"} for t in info["cert"]]
     return {"op": "reduce_replay", "terms": info["bool_terms"], "mapping": info["mapping"], "n": info["bool_n"],
@@ -276,6 +289,10 @@ def oracle(case, info, rng):
         if err == "ValueError" and case["deg"] is not None and case["deg"] < 2:
             return None, "error"
         return "unexpected exception %s" % err, "error"
+    if case.get("stale"):
+        # the property quantifies over models in the refreshed bookkeeping state; stale ones are covered by the
+        # correspondence only
+        return None, "skipped-stale"
     n = M.num_binary_variables
     mp = M.mapping
     # bookkeeping clause: labels 0..n-1 <-> M's variables through M.mapping
@@ -361,7 +378,7 @@ def process(ctx, cases, label_groups=None):
         ctx.traces += 1
         ctx.count("kind:%s->%s" % (c["kind"], c["target"]))
         ctx.count("deg:%s" % c["deg"]); ctx.count("lam:" + c["lam"][0]); ctx.count("labels:" + c["labels"])
-        ctx.count("build:" + ("incremental+refresh" if c.get("junk") else "dict"))
+        ctx.count("build:" + ("stale" if c.get("stale") else "incremental+refresh" if c.get("junk") else "dict"))
         ctx.count("pairs:" + ("none" if c["pairs"] is None else "unknown" if any(UNKNOWN in p for p in c["pairs"]) else "valid"))
         # level (i)
         mm = {"err": m["err"]} if "err" in m else {"res": m.get("res")}
